@@ -577,7 +577,7 @@ fn main() {
     run.bounds.insert(
         "bpe_tokenizers".into(),
         json!({"table_base_alphabet_bytes": BASE, "max_table_entries": max_entries, "enumerated_well_formed_tables": enumerated, "hand_made_tables": tabs.len() - enumerated,
-               "max_vocab_size": "None and every value in 0..=256+entries+len(tokens)+2", "special_configs_used": bpe_specs,
+               "max_vocab_size": "None, every value in 0..=256+entries+len(tokens)+2, and usize::MAX", "special_configs_used": bpe_specs,
                "grid": "tables x max_vocab_size x special configs (use_graphemes false)"}),
     );
     run.bounds.insert("ids".into(), json!(format!("every id in [0, vocab_size + {MARGIN})")));
@@ -607,7 +607,7 @@ fn main() {
             let file = scratch.path(&format!("table_{unit}.bin"));
             refs::write_merge_file(&file, table);
             let top = 256 + table.len() + sp.tokens.len() + 2;
-            for max_vocab_size in std::iter::once(None).chain((0..=top).map(Some)) {
+            for max_vocab_size in std::iter::once(None).chain((0..=top).map(Some)).chain(std::iter::once(Some(usize::MAX))) {
                 check(&mut run, &mut tally, &Kind::Bpe { table: table.clone(), max_vocab_size }, sp, &scratch, Some(&file));
                 if max_vocab_size.unwrap_or(0) % 32 == 0 {
                     run.tick();
